@@ -198,3 +198,9 @@ package transaction
 // flag, so it may be reached only through the engine facade's guarded BeginTransaction (calls through the
 // TransactionManager interface that can dispatch to it are included).
 //@ rule[C16] callers (*Manager).BeginTransaction : pkg/engine::(*EngineFacade).BeginTransaction
+
+// ---- C07: sharing discipline
+//@ guarded (*RegistryImpl).transactions by mu
+//@ guarded (*RegistryImpl).connectionTxs by mu
+//@ guarded (*RegistryImpl).nextID by mu
+//@ guarded (*Buffer).operations by mu
